@@ -278,19 +278,35 @@ class Interp:
                 return ('app', 'residual', x)
         if v[0] == 'phi':
             alts = []
+            pf = self.phi_facts.get(v[1][:2], {})
+            learned = []
+            per_alt = {}
             for p, x in v[2]:
                 vo = self.static_variant(x)
                 if vo is not None and vo != variant:
                     continue
-                r = self.project_variant(st, x, variant, field)
+                # what is known on the edge this alternative came in on holds again once the other alternatives are excluded
+                sub = State()
+                if st is not None:
+                    sub.facts = set(st.facts)
+                sub.facts |= set(pf.get(p, ()))
+                r = self.project_variant(sub, x, variant, field)
                 if r == ('never',):
                     continue
                 alts.append((p, r))
+                learned.append(sub.facts)
+                per_alt[p] = frozenset(sub.facts - (set(st.facts) if st is not None else set()))
+            if st is not None and learned:
+                st.facts |= set.intersection(*learned)
             if not alts:
                 return ('never',)
             if all(a[1] == alts[0][1] for a in alts):
                 return alts[0][1]
-            return ('phi', v[1][:2] + (str(v[1][2:]) + '.%s.%s' % (variant, field),), tuple(alts))
+            # the projected value is a phi of its own: each surviving alternative carries the facts of its incoming edge plus
+            # what excluding the other variants taught about the phis nested inside it
+            nid = (v[1][0], ('proj', v[1][1], variant, field))
+            self.phi_facts[nid] = {p: per_alt.get(p, frozenset()) for p, _ in alts}
+            return ('phi', nid + (str(v[1][2:]) + '.%s.%s' % (variant, field),), tuple(alts))
         if v[0] == 'ite':
             va, vb = self.static_variant(v[2]), self.static_variant(v[3])
             a = None if (va is not None and va != variant) else self.project_variant(st, v[2], variant, field)
@@ -874,7 +890,14 @@ class Interp:
         okv = False
         if b is not None and self.is_private_helper(body_id):
             if b['kind'] == 'closure':
-                okv = True
+                # a closure is a piece of the function it is written in
+                pf = (b.get('meta') or {}).get('parent_fn')
+                pb = self.db.by_path.get(pf) if pf else None
+                pid = pb['id'] if pb is not None else None
+                if pid is None:
+                    # fall back on the id prefix `<parent>::{closure#n}`
+                    pid = body_id.split('::{closure')[0]
+                okv = pid == entry_id or (pid != body_id and pid in self.bodies and self.exclusive_helper(pid, entry_id))
             else:
                 path = (b.get('meta') or {}).get('path') or body_id
                 callers = {cb['id'] for cb, bi, t in self.db.callers_of(path)} | {cb['id'] for cb, bi, t in self.db.callers_of(body_id)}
